@@ -292,6 +292,28 @@ CLAIMED = {
                   "cross-check of programs and runs",
         design_ref="5/C07"),
 
+    "C23": dict(
+        category="model_checking",
+        text="Parallel.tla models the lock-directory, interface-mutex, pin/attach and FMMU-bitmap protocol of "
+             "ParallelEtherCat.run / LockFile / FMMULock one system call per step (optional crash), with switches for the "
+             "unrepaired protocols. TLC verifies the four invariants (one installer at a time, dispatcher and table up "
+             "while anyone runs, distinct ethertypes, distinct address windows) on the repaired protocol for all "
+             "interleavings of 2 participants (with and without a crash), 3 participants (with a crash in thorough) and 3 "
+             "bare FMMULock users. From the unrepaired protocols TLC extracts the shortest violating interleaving per "
+             "class; from the repaired one every bounded-preemption behaviour and random behaviours. All are replayed on "
+             "the real code in one OS process per participant with gated system calls (a participant blocked in flock / "
+             "lockf is recognised, no timeouts); TLC evaluates the invariants on the observed states and checks every "
+             "observed step against the repaired model (100 % on /repo).",
+        note="Verdict = invariants on observed states; model conformance is reported, not gated. bpf / XDP calls are "
+             "recorders with kernel semantics; granularity is the system call. Removing the mutex or un-mutexing the "
+             "stop block is caught through the old-protocol windows; reverting the FMMULock repair only through the "
+             "bare-FMMULock part (invisible through run(), as TLC shows). 2-3 participants; wall time depends on "
+             "machine load (16 JVM starts in quick).",
+        technique="TLA+ spec Parallel + TLC exhaustive design verification of the repaired protocol; TLC-found "
+                  "violating interleavings of the unrepaired protocols and TLC-enumerated behaviours of the repaired one "
+                  "replayed on the real code in real processes; TLC trace validation",
+        design_ref="5/C23"),
+
     "C24": dict(
         category="model_checking",
         text="Lifecycle.tla keeps a ledger of what a sync group holds (terminals asked OPERATIONAL, FMMU table "
